@@ -181,16 +181,13 @@ Record TInv (s : tstate) : Prop := {
   ti_cb : Forall (fun m => snd m = 1) (ch_cb s);
   ti_pin : Forall (fun e => exists b, In b (bprox s) /\ bp_key b = ge_pin e) (gifts s);
   ti_msg : forall m, In m (ch_bc s) \/ In m (lookups s) -> msg_ok s m;
-  ti_names : Forall (fun b => In (bp_url b, bp_obj b) (names s) /\ fst (bp_url b) = fst (bp_key b)) (bprox s);
-  ti_nodup : NoDup (map fst (names s));
   ti_nn : Forall (fun e => snd (fst e) < nextname s) (names s);
-  ti_ans : Forall (fun a => an_got a = Some (an_want a)) (answers s);
   ti_nofail : gfail s = false
 }.
 
 Ltac same I :=
   first [exact (ti_pos _ I) | exact (ti_ng _ I) | exact (ti_ids _ I) | exact (ti_keys _ I) | exact (ti_cb _ I) | exact (ti_pin _ I)
-        | exact (ti_names _ I) | exact (ti_nodup _ I) | exact (ti_nn _ I) | exact (ti_ans _ I) | exact (ti_nofail _ I)
+        | exact (ti_nn _ I) | exact (ti_nofail _ I)
         | exact (ti_count _ I) | exact (ti_msg _ I)].
 
 Lemma TInv_init : TInv tinit.
@@ -216,7 +213,7 @@ Proof.
 Qed.
 
 (* ---- Export *)
-Lemma TInv_export s o x c : TInv s -> TInv (do_export s o x c).
+Lemma TInv_export s o x c w : TInv s -> TInv (do_export s o x c w).
 Proof.
   intros I. unfold do_export.
   destruct (find _ (bprox s)) as [b0|] eqn:F.
@@ -230,30 +227,27 @@ Proof.
       exists (f b). split; [apply in_map; exact Hb|]. destruct (Fk b) as (-> & _). exact Hk.
     + intros m Hm. destruct (ti_msg s I m Hm) as (e & b & H1 & H2 & H3 & H4 & H5 & H6).
       exists e, (f b). destruct (Fk b) as (K1 & K2 & K3). rewrite K1, K2, K3. repeat split; auto. apply in_map; exact H3.
-    + pose proof (ti_names s I) as P. rewrite Forall_forall in *. intros b Hb. apply in_map_iff in Hb as (b' & <- & Hb').
-      destruct (Fk b') as (K1 & K2 & K3). rewrite K1, K2, K3. apply P; exact Hb'.
-  - destruct (_ || _); [exact I|].
-    destruct (if assign_reuses_name then find_name_of (names s) o x else None) as [n|] eqn:Fn.
-    + (* the object has a name already *)
-      assert (Hn : In ((o, n), x) (names s)).
-      { destruct assign_reuses_name; [apply find_name_of_some; exact Fn | discriminate]. }
+  - destruct (_ || _); [exact I|]. destruct w.
+    + destruct (if assign_reuses_name then find_name_of (names s) o x else None) as [n|] eqn:Fn.
+      * (* the object has a name already *)
+        constructor; cbn [upd names nextname bprox gifts nextgift ch_bc lookups answers ch_cb cprox gfail]; try (same I).
+        -- pose proof (ti_pin s I) as P. rewrite Forall_forall in *. intros e He. destruct (P e He) as (b & Hb & Hk).
+           exists b. split; [right; exact Hb | exact Hk].
+        -- intros m Hm. destruct (ti_msg s I m Hm) as (e & b & H1 & H2 & H3 & H4 & H5 & H6).
+           exists e, b. repeat split; auto. right; exact H3.
+      * (* a fresh name *)
+        constructor; cbn [upd names nextname bprox gifts nextgift ch_bc lookups answers ch_cb cprox gfail]; try (same I).
+        -- pose proof (ti_pin s I) as P. rewrite Forall_forall in *. intros e He. destruct (P e He) as (b & Hb & Hk).
+           exists b. split; [right; exact Hb | exact Hk].
+        -- intros m Hm. destruct (ti_msg s I m Hm) as (e & b & H1 & H2 & H3 & H4 & H5 & H6).
+           exists e, b. repeat split; auto. right; exact H3.
+        -- constructor; [cbn; lia|]. apply Forall_impl with (2 := ti_nn s I). intros e He. lia.
+    + (* the short form: a proxy without FURL, no name is assigned *)
       constructor; cbn [upd names nextname bprox gifts nextgift ch_bc lookups answers ch_cb cprox gfail]; try (same I).
       * pose proof (ti_pin s I) as P. rewrite Forall_forall in *. intros e He. destruct (P e He) as (b & Hb & Hk).
         exists b. split; [right; exact Hb | exact Hk].
       * intros m Hm. destruct (ti_msg s I m Hm) as (e & b & H1 & H2 & H3 & H4 & H5 & H6).
         exists e, b. repeat split; auto. right; exact H3.
-      * constructor; [cbn; auto | apply (ti_names s I)].
-    + (* a fresh name *)
-      constructor; cbn [upd names nextname bprox gifts nextgift ch_bc lookups answers ch_cb cprox gfail]; try (same I).
-      * pose proof (ti_pin s I) as P. rewrite Forall_forall in *. intros e He. destruct (P e He) as (b & Hb & Hk).
-        exists b. split; [right; exact Hb | exact Hk].
-      * intros m Hm. destruct (ti_msg s I m Hm) as (e & b & H1 & H2 & H3 & H4 & H5 & H6).
-        exists e, b. repeat split; auto. right; exact H3.
-      * constructor; [cbn; auto|]. pose proof (ti_names s I) as P. rewrite Forall_forall in *. intros b Hb.
-        destruct (P b Hb) as [P1 P2]. split; [right; exact P1 | exact P2].
-      * cbn [map fst]. constructor; [|apply (ti_nodup s I)]. intros Hin. apply in_map_iff in Hin as (e & Ee & He).
-        pose proof (ti_nn s I) as N. rewrite Forall_forall in N. specialize (N e He). cbv beta in N. unfold url in *. rewrite Ee in N. cbn in N. lia.
-      * constructor; [cbn; lia|]. apply Forall_impl with (2 := ti_nn s I). intros e He. lia.
 Qed.
 
 (* ---- Give *)
@@ -325,26 +319,22 @@ Qed.
 (* ---- C receives a their-reference *)
 Lemma TInv_recv_bc s : TInv s -> TInv (do_recv_bc s).
 Proof.
-  intros I. unfold do_recv_bc. destruct (ch_bc s) as [|m rest] eqn:Hch; [exact I|]. rewrite gift_ack_point_spec, app_nil_r.
-  constructor; cbn [upd names nextname bprox gifts nextgift ch_bc lookups answers ch_cb cprox gfail]; try (same I).
-  - intros id. pose proof (ti_count s I id) as C. unfold outstanding in *. cbn [upd ch_bc lookups answers ch_cb].
-    rewrite Hch in C. cbn [occ_tr] in C. rewrite occ_tr_app. lia.
-  - intros m0 Hm. assert (H : msg_ok s m0).
-    { apply (ti_msg s I). rewrite Hch. destruct Hm as [Hm|Hm]; [left; right; exact Hm|].
-      apply in_app_or in Hm as [Hm|[<-|[]]]; [right; exact Hm | left; left; reflexivity]. }
-    exact H.
-Qed.
-
-(* ---- the owner answers a lookup: the name resolves, to the object the giver's proxy designates *)
-Lemma lookup_resolves s m : TInv s -> In m (lookups s) -> resolve s (tr_url m) = Some (tr_want m).
-Proof.
-  intros I Hm. destruct (ti_msg s I m (or_intror Hm)) as (e & b & H1 & H2 & H3 & H4 & H5 & H6).
-  pose proof (ti_names s I) as P. rewrite Forall_forall in P. destruct (P b H3) as [P1 P2].
-  unfold resolve. rewrite <- H6, (find_obj_of_in _ _ _ (ti_nodup s I) P1).
-  assert (A : obj_alive s (fst (bp_url b), bp_obj b) = true).
-  { unfold obj_alive. apply Bool.orb_true_iff. left. apply Bool.orb_true_iff. left. apply existsb_exists. exists b.
-    split; [exact H3|]. rewrite P2. apply objid_eqb_eq. reflexivity. }
-  rewrite A, P2, H5. reflexivity.
+  intros I. unfold do_recv_bc. destruct (ch_bc s) as [|m rest] eqn:Hch; [exact I|]. rewrite gift_ack_point_spec, !app_nil_r.
+  destruct (tr_url m) as [u|].
+  - constructor; cbn [upd names nextname bprox gifts nextgift ch_bc lookups answers ch_cb cprox gfail]; try (same I).
+    + intros id. pose proof (ti_count s I id) as C. unfold outstanding in *. cbn [upd ch_bc lookups answers ch_cb].
+      rewrite Hch in C. cbn [occ_tr] in C. rewrite occ_tr_app. lia.
+    + intros m0 Hm. assert (H : msg_ok s m0).
+      { apply (ti_msg s I). rewrite Hch. destruct Hm as [Hm|Hm]; [left; right; exact Hm|].
+        apply in_app_or in Hm as [Hm|[<-|[]]]; [right; exact Hm | left; left; reflexivity]. }
+      exact H.
+  - (* the empty FURL: getReference fails at once, the failure is queued like an answer *)
+    constructor; cbn [upd names nextname bprox gifts nextgift ch_bc lookups answers ch_cb cprox gfail]; try (same I).
+    + intros id. pose proof (ti_count s I id) as C. unfold outstanding in *. cbn [upd ch_bc lookups answers ch_cb].
+      rewrite Hch in C. cbn [occ_tr] in C. rewrite occ_an_app. cbn [an_id]. lia.
+    + intros m0 Hm. assert (H : msg_ok s m0).
+      { apply (ti_msg s I). rewrite Hch. destruct Hm as [Hm|Hm]; [left; right; exact Hm | right; exact Hm]. }
+      exact H.
 Qed.
 
 Lemma TInv_lookup s i : TInv s -> TInv (do_lookup s i).
@@ -357,8 +347,6 @@ Proof.
   - intros m0 Hm. assert (H : msg_ok s m0).
     { apply (ti_msg s I). destruct Hm as [Hm|Hm]; [left; exact Hm | right; eapply In_remove_nth; eauto]. }
     exact H.
-  - apply Forall_app. split; [apply (ti_ans s I)|]. constructor; [|constructor]. cbn [an_got an_want].
-    apply lookup_resolves; assumption.
 Qed.
 
 (* ---- C receives the answer: acknowledgement *)
@@ -375,7 +363,6 @@ Proof.
   - intros id. pose proof (ti_count s I id) as C. unfold outstanding in *. cbn [upd ch_bc lookups answers ch_cb].
     rewrite (occ_an_remove _ _ _ id Hn), occ_cb_app. cbn [fst snd]. lia.
   - apply Forall_app. split; [apply (ti_cb s I) | constructor; [reflexivity | constructor]].
-  - pose proof (ti_ans s I) as P. rewrite Forall_forall in *. intros b Hb. apply P. eapply In_remove_nth; eauto.
 Qed.
 
 (* ---- B receives a decgift *)
@@ -438,7 +425,6 @@ Proof.
       lia. }
     destruct Ex as (a & Ha & Ea1 & Ea2). exists a, b0. repeat split; auto; try congruence.
     eapply purge_keeps; eauto. congruence.
-  - pose proof (ti_names s I) as P. rewrite Forall_forall in *. intros b Hb. apply filter_In in Hb as [Hb _]. apply P; exact Hb.
 Qed.
 
 (* ---- B's application lets go of a proxy *)
@@ -455,8 +441,6 @@ Proof.
   - intros m Hm. destruct (ti_msg s I m Hm) as (e & b & H1 & H2 & H3 & H4 & H5 & H6).
     exists e, (f b). destruct (Fk b) as (K1 & K2 & K3). rewrite K1, K2, K3. repeat split; auto.
     eapply purge_keeps; [exact H1 | apply in_map; exact H3 | congruence].
-  - pose proof (ti_names s I) as P. rewrite Forall_forall in *. intros b Hb. apply filter_In in Hb as [Hb _].
-    apply in_map_iff in Hb as (b' & <- & Hb'). destruct (Fk b') as (K1 & K2 & K3). rewrite K1, K2, K3. apply P; exact Hb'.
 Qed.
 
 Lemma TInv_cdrop s ox : TInv s -> TInv (do_cdrop s ox).
@@ -466,15 +450,10 @@ Qed.
 
 Lemma TInv_register s o x n : TInv s -> TInv (do_register s o x n).
 Proof.
-  intros I. unfold do_register. destruct (n <? nextname s) eqn:Hn; cbn [negb orb]; [|exact I].
-  destruct (name_used (names s) o n) eqn:Hu; [exact I|]. apply Z.ltb_lt in Hn.
+  intros I. unfold do_register. destruct (n <? nextname s) eqn:Hn; cbn [negb]; [|exact I]. apply Z.ltb_lt in Hn.
   destruct (find_name_of (names s) o x); [rewrite assign_existing_spec; exact I|].
   constructor; cbn [upd names nextname bprox gifts nextgift ch_bc lookups answers ch_cb cprox gfail]; try (same I).
-  - pose proof (ti_names s I) as P. rewrite Forall_forall in *. intros b Hb. destruct (P b Hb) as [P1 P2]. split; [right; exact P1 | exact P2].
-  - cbn [map fst]. constructor; [|apply (ti_nodup s I)]. intros Hin. apply in_map_iff in Hin as (e & Ee & He).
-    assert (name_used (names s) o n = true); [|congruence]. unfold name_used. apply existsb_exists. exists e. split; [exact He|].
-    unfold url in *. rewrite Ee. cbn [fst snd]. rewrite !Z.eqb_refl. reflexivity.
-  - constructor; [cbn; exact Hn | apply (ti_nn s I)].
+  constructor; [cbn; exact Hn | apply (ti_nn s I)].
 Qed.
 
 Theorem TInv_step s o : TInv s -> TInv (fst (tstep s o)).
@@ -491,10 +470,124 @@ Corollary TInv_reachable ops : TInv (trun tinit ops).
 Proof. apply TInv_run, TInv_init. Qed.
 
 (* ------------------------------------------------------------------ *)
+(* the part of the invariant that needs the guard (faithful_op): names are unambiguous, every proxy's FURL (if it has one)
+   names its object, every gift under way has a FURL, every answer under way is the object the giver meant *)
+Record TFaith (s : tstate) : Prop := {
+  tf_names : Forall (fun b => forall u, bp_url b = Some u -> In (u, bp_obj b) (names s) /\ fst u = fst (bp_key b)) (bprox s);
+  tf_nodup : NoDup (map fst (names s));
+  tf_ans : Forall (fun a => an_got a = Some (an_want a)) (answers s);
+  tf_url : forall m, In m (ch_bc s) \/ In m (lookups s) -> tr_url m <> None
+}.
+
+Lemma TFaith_init : TFaith tinit.
+Proof. constructor; cbn; try constructor. intros m [[]|[]]. Qed.
+
+(* ---- the owner answers a lookup: the name resolves, to the object the giver's proxy designates *)
+Lemma lookup_resolves s m : TInv s -> TFaith s -> In m (lookups s) -> resolve_opt s (tr_url m) = Some (tr_want m).
+Proof.
+  intros I T Hm. destruct (ti_msg s I m (or_intror Hm)) as (e & b & H1 & H2 & H3 & H4 & H5 & H6).
+  destruct (tr_url m) as [u|] eqn:Eu; [|exfalso; apply (tf_url s T m (or_intror Hm)); exact Eu]. cbn [resolve_opt].
+  pose proof (tf_names s T) as P. rewrite Forall_forall in P. destruct (P b H3 u H6) as [P1 P2].
+  unfold resolve. rewrite (find_obj_of_in _ _ _ (tf_nodup s T) P1).
+  assert (A : obj_alive s (fst u, bp_obj b) = true).
+  { unfold obj_alive. apply Bool.orb_true_iff. left. apply Bool.orb_true_iff. left. apply existsb_exists. exists b.
+    split; [exact H3|]. rewrite P2. apply objid_eqb_eq. reflexivity. }
+  rewrite A, P2, H5. reflexivity.
+Qed.
+
+Lemma TFaith_step s o : TInv s -> TFaith s -> faithful_op s o = true -> TFaith (fst (tstep s o)).
+Proof.
+  intros I T G. destruct o as [o x c w|k| |i|i| |k|ox|o x n]; cbn [tstep fst].
+  - (* Export *)
+    unfold do_export. destruct (find _ (bprox s)) as [b0|] eqn:F.
+    + set (f := fun b : bproxy => if objid_eqb (fst (bp_key b), bp_obj b) (o, x)
+                        then {| bp_key := bp_key b; bp_obj := bp_obj b; bp_url := bp_url b; bp_app := true |} else b).
+      assert (Fk : forall b, bp_key (f b) = bp_key b /\ bp_obj (f b) = bp_obj b /\ bp_url (f b) = bp_url b).
+      { intros b. unfold f. destruct (objid_eqb _ _); auto. }
+      constructor; cbn [upd names bprox answers ch_bc lookups]; try apply T.
+      pose proof (tf_names s T) as P. rewrite Forall_forall in *. intros b Hb. apply in_map_iff in Hb as (b' & <- & Hb').
+      destruct (Fk b') as (K1 & K2 & K3). rewrite K1, K2, K3. apply P; exact Hb'.
+    + destruct (_ || _); [exact T|]. destruct w.
+      * destruct (if assign_reuses_name then find_name_of (names s) o x else None) as [n|] eqn:Fn.
+        -- assert (Hn : In ((o, n), x) (names s)).
+           { destruct assign_reuses_name; [apply find_name_of_some; exact Fn | discriminate]. }
+           constructor; cbn [upd names bprox answers ch_bc lookups]; try apply T.
+           constructor; [cbn [bp_url bp_obj bp_key]; intros u Eu; inversion Eu; subst u; auto | apply (tf_names s T)].
+        -- constructor; cbn [upd names bprox answers ch_bc lookups]; try apply T.
+           ++ constructor; [cbn [bp_url bp_obj bp_key]; intros u Eu; inversion Eu; subst u; split; [left; reflexivity | reflexivity]|].
+              pose proof (tf_names s T) as P. rewrite Forall_forall in *. intros b Hb u Eu.
+              destruct (P b Hb u Eu) as [P1 P2]. split; [right; exact P1 | exact P2].
+           ++ cbn [map fst]. constructor; [|apply (tf_nodup s T)]. intros Hin. apply in_map_iff in Hin as (e & Ee & He).
+              pose proof (ti_nn s I) as N. rewrite Forall_forall in N. specialize (N e He). cbv beta in N. unfold url in *. rewrite Ee in N. cbn in N. lia.
+      * constructor; cbn [upd names bprox answers ch_bc lookups]; try apply T.
+        constructor; [cbn [bp_url]; intros u Eu; discriminate | apply (tf_names s T)].
+  - (* Give: the proxy has a FURL *)
+    cbn [faithful_op] in G. unfold do_give. destruct (find_bp (bprox s) k) as [b|] eqn:Fb; [|exact T].
+    destruct (bp_url b) as [u|] eqn:Eu; [|discriminate].
+    assert (U : forall id m, In m (ch_bc s ++ [{| tr_id := id; tr_url := Some u; tr_want := (fst k, bp_obj b) |}]) \/ In m (lookups s) ->
+                             tr_url m <> None).
+    { intros id m [Hm|Hm]; [|apply (tf_url s T); right; exact Hm].
+      apply in_app_or in Hm as [Hm|[<-|[]]]; [apply (tf_url s T); left; exact Hm | cbn; discriminate]. }
+    destruct (find_gift (gifts s) (gift_key k)) as [e|]; constructor; cbn [upd names bprox answers ch_bc lookups]; try apply T;
+      apply U.
+  - (* RecvBC: the gift has a FURL, a lookup goes out *)
+    unfold do_recv_bc. destruct (ch_bc s) as [|m rest] eqn:Hch; [exact T|].
+    assert (Um : tr_url m <> None) by (apply (tf_url s T); left; rewrite Hch; left; reflexivity).
+    destruct (tr_url m) as [u|] eqn:Eu; [|contradiction].
+    constructor; cbn [upd names bprox answers ch_bc lookups]; try apply T.
+    intros m0 Hm. destruct Hm as [Hm|Hm]; [apply (tf_url s T); left; rewrite Hch; right; exact Hm|].
+    apply in_app_or in Hm as [Hm|[<-|[]]]; [apply (tf_url s T); right; exact Hm | rewrite Eu; discriminate].
+  - (* Lookup *)
+    unfold do_lookup. destruct (nth_error (lookups s) i) as [m|] eqn:Hn; [|exact T].
+    pose proof (nth_error_In _ _ Hn) as Hin.
+    constructor; cbn [upd names bprox answers ch_bc lookups]; try apply T.
+    + apply Forall_app. split; [apply (tf_ans s T)|]. constructor; [|constructor]. cbn [an_got an_want].
+      apply lookup_resolves; assumption.
+    + intros m0 Hm. apply (tf_url s T). destruct Hm as [Hm|Hm]; [left; exact Hm | right; eapply In_remove_nth; eauto].
+  - (* Answer *)
+    unfold do_answer. destruct (nth_error (answers s) i) as [a|] eqn:Hn; [|exact T]. cbn [fst].
+    constructor; cbn [upd names bprox answers ch_bc lookups]; try apply T.
+    pose proof (tf_ans s T) as P. rewrite Forall_forall in *. intros b Hb. apply P. eapply In_remove_nth; eauto.
+  - (* RecvCB *)
+    unfold do_recv_cb. destruct (ch_cb s) as [|[id n] rest]; [exact T|].
+    destruct (find_gift_id (gifts s) id) as [e|]; cbn [fst]; constructor; cbn [upd names bprox answers ch_bc lookups]; try apply T.
+    pose proof (tf_names s T) as P. rewrite Forall_forall in *. intros b Hb. apply filter_In in Hb as [Hb _]. apply P; exact Hb.
+  - (* AppDrop *)
+    unfold do_appdrop.
+    set (f := fun b : bproxy => if key_eqb (bp_key b) k
+                      then {| bp_key := bp_key b; bp_obj := bp_obj b; bp_url := bp_url b; bp_app := false |} else b).
+    assert (Fk : forall b, bp_key (f b) = bp_key b /\ bp_obj (f b) = bp_obj b /\ bp_url (f b) = bp_url b).
+    { intros b. unfold f. destruct (key_eqb _ _); auto. }
+    constructor; cbn [upd names bprox answers ch_bc lookups]; try apply T.
+    pose proof (tf_names s T) as P. rewrite Forall_forall in *. intros b Hb. apply filter_In in Hb as [Hb _].
+    apply in_map_iff in Hb as (b' & <- & Hb'). destruct (Fk b') as (K1 & K2 & K3). rewrite K1, K2, K3. apply P; exact Hb'.
+  - constructor; cbn [do_cdrop upd names bprox answers ch_bc lookups]; apply T.
+  - (* Register: the name is not in use *)
+    cbn [faithful_op] in G. unfold do_register. destruct (n <? nextname s) eqn:Hn; cbn [negb orb] in *; [|exact T].
+    apply Bool.negb_true_iff in G.
+    destruct (find_name_of (names s) o x); [rewrite assign_existing_spec; exact T|].
+    constructor; cbn [upd names bprox answers ch_bc lookups]; try apply T.
+    + pose proof (tf_names s T) as P. rewrite Forall_forall in *. intros b Hb u Eu. destruct (P b Hb u Eu) as [P1 P2].
+      split; [right; exact P1 | exact P2].
+    + cbn [map fst]. constructor; [|apply (tf_nodup s T)]. intros Hin. apply in_map_iff in Hin as (e & Ee & He).
+      assert (name_used (names s) o n = true); [|congruence]. unfold name_used. apply existsb_exists. exists e. split; [exact He|].
+      unfold url in *. rewrite Ee. cbn [fst snd]. rewrite !Z.eqb_refl. reflexivity.
+Qed.
+
+Lemma TFaith_run ops : forall s, TInv s -> TFaith s -> faithful_run s ops -> TFaith (trun s ops).
+Proof.
+  induction ops as [|o r IH]; intros s I T G; cbn [trun]; [exact T|]. destruct G as [G1 G2].
+  apply IH; [apply TInv_step, I | apply TFaith_step; assumption | exact G2].
+Qed.
+
+Corollary TFaith_reachable ops : faithful_run tinit ops -> TFaith (trun tinit ops).
+Proof. apply TFaith_run; [apply TInv_init | apply TFaith_init]. Qed.
+
+(* ------------------------------------------------------------------ *)
 (* C08: after introduction the recipient's proxy designates the same original object *)
 
-(* what B puts on the wire for its proxy: the gift's FURL is the proxy's, the (ghost) intention is the object the proxy's
-   (connection, clid) was allocated for *)
+(* what B puts on the wire for its proxy: the gift's FURL is the proxy's (the empty one if its tracker has none), the (ghost)
+   intention is the object the proxy's (connection, clid) was allocated for *)
 Theorem give_names_object ops k b :
   let s := trun tinit ops in
   find_bp (bprox s) k = Some b ->
@@ -503,25 +596,28 @@ Proof.
   intros s F. cbn [tstep fst]. unfold do_give. rewrite F. destruct (find_gift _ _); eexists; reflexivity.
 Qed.
 
-(* every lookup of a gift's name, whenever the owner processes it, resolves -- to the object the giver's proxy designates *)
+(* GUARDED (faithful_run): every lookup of a gift's name, whenever the owner processes it, resolves -- to the object the giver's
+   proxy designates *)
 Theorem lookup_finds_original ops i m :
+  faithful_run tinit ops ->
   let s := trun tinit ops in
   nth_error (lookups s) i = Some m ->
   exists rest, answers (fst (tstep s (TLookup i))) = rest ++ [{| an_id := tr_id m; an_got := Some (tr_want m); an_want := tr_want m |}].
 Proof.
-  intros s Hn. cbn [tstep fst]. unfold do_lookup. rewrite Hn. cbn [upd answers].
-  rewrite (lookup_resolves s m (TInv_reachable ops) (nth_error_In _ _ Hn)). eexists; reflexivity.
+  intros G s Hn. cbn [tstep fst]. unfold do_lookup. rewrite Hn. cbn [upd answers].
+  rewrite (lookup_resolves s m (TInv_reachable ops) (TFaith_reachable ops G) (nth_error_In _ _ Hn)). eexists; reflexivity.
 Qed.
 
-(* every introduction completes with a proxy for the object the giver meant *)
+(* GUARDED: every introduction completes with a proxy for the object the giver meant *)
 Theorem intro_same_object ops i a :
+  faithful_run tinit ops ->
   let s := trun tinit ops in
   nth_error (answers s) i = Some a ->
   snd (tstep s (TAnswer i)) = [EvIntro (an_id a) (Some (an_want a)) (an_want a)] /\
   In (an_want a) (cprox (fst (tstep s (TAnswer i)))).
 Proof.
-  intros s Hn. pose proof (TInv_reachable ops) as I. fold s in I.
-  pose proof (ti_ans s I) as P. rewrite Forall_forall in P. specialize (P a (nth_error_In _ _ Hn)).
+  intros G s Hn. pose proof (TFaith_reachable ops G) as T. fold s in T.
+  pose proof (tf_ans s T) as P. rewrite Forall_forall in P. specialize (P a (nth_error_In _ _ Hn)).
   cbn [tstep]. unfold do_answer. rewrite Hn. cbn [fst snd upd cprox]. rewrite P. split; [reflexivity|].
   destruct (existsb (objid_eqb (an_want a)) (cprox s)) eqn:E; [|left; reflexivity].
   apply existsb_exists in E as (y & Hy & Ey). apply objid_eqb_eq in Ey. subst y. exact Hy.
@@ -529,22 +625,48 @@ Qed.
 
 Definition good_event (e : tevent) : Prop := exists id w, e = EvIntro id (Some w) w.
 
-Lemma events_good ops : forall s, TInv s -> Forall good_event (trun_events s ops).
+Lemma events_good ops : forall s, TInv s -> TFaith s -> faithful_run s ops -> Forall good_event (trun_events s ops).
 Proof.
-  induction ops as [|o r IH]; intros s I; cbn [trun_events]; [constructor|].
-  apply Forall_app. split; [|apply IH, TInv_step, I].
+  induction ops as [|o r IH]; intros s I T G; cbn [trun_events]; [constructor|]. destruct G as [G1 G2].
+  apply Forall_app. split; [|apply IH; [apply TInv_step, I | apply TFaith_step; assumption | exact G2]].
   destruct o; cbn [tstep snd]; try constructor.
   - unfold do_answer. destruct (nth_error (answers s) i) as [a|] eqn:Hn; cbn [snd]; [|constructor].
-    pose proof (ti_ans s I) as P. rewrite Forall_forall in P. specialize (P a (nth_error_In _ _ Hn)).
+    pose proof (tf_ans s T) as P. rewrite Forall_forall in P. specialize (P a (nth_error_In _ _ Hn)).
     constructor; [|constructor]. exists (an_id a), (an_want a). rewrite P. reflexivity.
   - pose proof (TInv_recv_cb s I) as I'. unfold do_recv_cb in *. destruct (ch_cb s) as [|[id n] rest]; cbn [snd]; [constructor|].
     destruct (find_gift_id (gifts s) id) as [e|]; cbn [snd]; [constructor|].
     cbn [fst] in I'. pose proof (ti_nofail _ I') as F. cbn in F. discriminate.
 Qed.
 
-(* in EVERY history: no introduction fails or yields another object, and remote_decgift never meets an unknown gift *)
-Theorem all_introductions_faithful ops : Forall good_event (trun_events tinit ops).
-Proof. apply events_good, TInv_init. Qed.
+(* PARTIAL.  Full statement: in EVERY history no introduction fails or yields another object.  Proved under the guard
+   faithful_run: every proxy the giver hands on has a FURL, and no owner registers a second object under a name in use.
+   What is missing is refuted below, once per clause of the guard. *)
+Theorem all_introductions_faithful_partial ops : faithful_run tinit ops -> Forall good_event (trun_events tinit ops).
+Proof. apply events_good; [apply TInv_init | apply TFaith_init]. Qed.
+
+(* REFUTED without the first clause: the giver's proxy has no FURL (its tracker was re-created from the short form of a
+   my-reference: RefsProofs.live_proxy_without_url); what it sends is `their-reference <id> ""`, the recipient's getReference
+   fails, the call carrying the gift is flunked *)
+Definition urlless_gift_ops : list top := [TExport 0 5 1 false; TGive (0, 1); TRecvBC; TAnswer 0].
+
+Theorem all_introductions_faithful_refuted :
+  exists ops, ~ Forall good_event (trun_events tinit ops) /\ trun_events tinit ops = [EvIntro 1 None (0, 5)].
+Proof.
+  exists urlless_gift_ops. split; [|vm_compute; reflexivity].
+  intros H. assert (E : trun_events tinit urlless_gift_ops = [EvIntro 1 None (0, 5)]) by (vm_compute; reflexivity).
+  rewrite E in H. inversion H as [|? ? (id & w & Hg) _]; subst. discriminate.
+Qed.
+
+(* REFUTED without the second clause: the owner's application registers object 20 under the name object 10 is known by; the
+   giver's proxy of 10 carries that name; the introduction yields a proxy of 20 *)
+Definition name_takeover_ops : list top :=
+  [TExport 0 10 1 true; TExport 0 20 2 false; TRegister 0 20 0; TGive (0, 1); TRecvBC; TLookup 0; TAnswer 0].
+
+Theorem introduction_refuted_by_name_takeover :
+  trun_events tinit name_takeover_ops = [EvIntro 1 (Some (0, 20)) (0, 10)] /\ ~ faithful_run tinit name_takeover_ops.
+Proof. split; [vm_compute; reflexivity|]. vm_compute. intuition discriminate. Qed.
+
+(* the guard is satisfiable by non-trivial histories (two_owner_ops below), and the counting theorems (C09) need no guard *)
 
 (* ------------------------------------------------------------------ *)
 (* C09, three parties *)
@@ -618,7 +740,7 @@ Qed.
 (* non-vacuity: two owners whose proxies carry the SAME clid, both given in one call, the giver drops both at once,
    lookups answered in the opposite order; then everything drains *)
 Definition two_owner_ops : list top :=
-  [TExport 0 10 2; TExport 1 20 2; TRegister 0 10 (-1); TRegister 1 30 (-1); TGive (0, 2); TGive (1, 2); TGive (0, 2); TAppDrop (0, 2); TAppDrop (1, 2);
+  [TExport 0 10 2 true; TExport 1 20 2 true; TRegister 0 10 (-1); TRegister 1 30 (-1); TGive (0, 2); TGive (1, 2); TGive (0, 2); TAppDrop (0, 2); TAppDrop (1, 2);
    TRecvBC; TRecvBC; TRecvBC; TLookup 1; TLookup 0; TLookup 0; TAnswer 0; TAnswer 0; TAnswer 0].
 
 Example two_owner_events :
@@ -626,7 +748,7 @@ Example two_owner_events :
 Proof. vm_compute. reflexivity. Qed.
 
 Example two_owner_midway :
-  let s := trun tinit [TExport 0 10 2; TExport 1 20 2; TRegister 0 10 (-1); TRegister 1 30 (-1); TGive (0, 2); TGive (1, 2); TGive (0, 2);
+  let s := trun tinit [TExport 0 10 2 true; TExport 1 20 2 true; TRegister 0 10 (-1); TRegister 1 30 (-1); TGive (0, 2); TGive (1, 2); TGive (0, 2);
                        TAppDrop (0, 2); TAppDrop (1, 2); TRecvBC] in
   map (fun e => (ge_key e, ge_id e, ge_count e)) (gifts s) = [((1, 2), 2, 1); ((0, 2), 1, 2)] /\
   List.length (bprox s) = 2%nat /\ List.length (ch_bc s) = 2%nat /\ List.length (lookups s) = 1%nat /\
@@ -636,4 +758,7 @@ Proof. vm_compute. repeat split. Qed.
 Example two_owner_drains :
   let s := trun tinit (two_owner_ops ++ [TRecvCB; TRecvCB; TRecvCB]) in
   tquiescent s /\ gifts s = [] /\ bprox s = [] /\ cprox s = [(0, 10); (1, 20)] /\ gfail s = false.
+Proof. vm_compute. repeat split. Qed.
+
+Example two_owner_faithful : faithful_run tinit (two_owner_ops ++ [TRecvCB; TRecvCB; TRecvCB]).
 Proof. vm_compute. repeat split. Qed.
